@@ -121,7 +121,7 @@ func init() {
 		ID:    "C05",
 		Level: "model_checking",
 		Rule: "same message universe as C03 (builder-op sequences up to the depth bound + all field sweeps). Forward: the library's encoding must be accepted by the strict reference parser (lengths = extents, chain, markers, zero reserved/critical) and parse to the descriptor. " +
-			"Reverse: the reference liberal encoder emits every single sender liberty (each reserved field all-ones, critical flag and reserved generic bits on each payload position, all together, every permutation of <= 4 transforms, reversal/interleaving beyond) and the library must decode to the descriptor; the messages of depth <= 1 additionally as an independent peer sends them inside an IKE SA (protected by the reference SK implementation under a rotating suite and role, every inner liberty, SK generic header flags 0x00 / 0x80 / 0x7f / 0xff) through DecodeDecrypt. distinct_nontrivial = distinct datagrams with at least one payload that were cross-checked",
+			"Each message object is then used again (the object that was encoded, and the object decoded from its datagram: payload list emptied, payload list cut to its first payload) and must again encode to a well-formed datagram carrying exactly the payloads it holds. Reverse: the reference liberal encoder emits every single sender liberty (each reserved field all-ones, critical flag and reserved generic bits on each payload position, all together, every permutation of <= 4 transforms, reversal/interleaving beyond) and the library must decode to the descriptor; the messages of depth <= 1 additionally as an independent peer sends them inside an IKE SA (protected by the reference SK implementation under a rotating suite and role, every inner liberty, SK generic header flags 0x00 / 0x80 / 0x7f / 0xff) through DecodeDecrypt. distinct_nontrivial = distinct datagrams with at least one payload that were cross-checked",
 		Assumptions: []string{"transform order is compared within each transform type (the library's data model has no cross-type order)",
 			"datagrams with more than one attribute per transform are outside the library's data model and not generated"},
 		Run: func(c *engine.Ctx) {
@@ -259,6 +259,49 @@ func evalC05(c *engine.Ctx, cs c05Case) {
 		}
 		if c.State(engine.Hash64(b)) {
 			c.States++
+		}
+		// the message object is used again with another payload list (the request object answered with an empty
+		// INFORMATIONAL, a decoded request turned into the reply): what it encodes to is again a well-formed
+		// datagram carrying exactly the payloads it holds now
+		if len(m.P) > 0 {
+			lm, _, _, _, _ := encodeLib(m)
+			dm, _, _ := decodeLib(b)
+			for vi, obj := range []*message.IKEMessage{lm, dm} {
+				if obj == nil {
+					continue
+				}
+				for _, keep := range []int{1, 0} {
+					if keep >= len(obj.Payloads) && keep > 0 {
+						continue
+					}
+					var b2 []byte
+					var err2 error
+					if keep == 0 {
+						obj.Payloads.Reset()
+					} else {
+						obj.Payloads = obj.Payloads[:keep]
+					}
+					if pi := engine.Catch(func() { b2, err2 = obj.Encode() }); pi != nil {
+						c.Violate(pi.Sig(), "Encode of a message object used before panics: "+pi.Value, cs)
+						return
+					}
+					if err2 != nil {
+						continue
+					}
+					got2, _, perr := ref.Parse(b2, true)
+					want2 := ref.Msg{H: m.H, P: m.P[:keep]}
+					how := []string{"encoded before", "decoded from a datagram"}[vi]
+					if perr != nil {
+						c.Violate("fwd/malformed/"+classify(perr)+"/reused-message-object", fmt.Sprintf("%s: message object %s, payload list cut to %d, encoded again: rejected by the strict RFC parser: %v; wire=%s", cs.Name, how, keep, perr, engine.Hex(trunc(b2, 120))), cs)
+						return
+					}
+					if got2.Canon() != want2.Canon() {
+						c.Violate("fwd/fields/reused-message-object", fmt.Sprintf("%s: message object %s, payload list cut to %d, encoded again: reference parser reads %s", cs.Name, how, keep, trs(got2.Canon())), cs)
+						return
+					}
+				}
+			}
+			c.Count("reused_message_objects", 1)
 		}
 		return
 	}
